@@ -1,6 +1,478 @@
 package main
 
-import "verifharness/internal/vf"
+// Stage l3: consumption of the produced labels by the real fs.Mount (fs/fs.go).
+//
+// For a handful of manifests whose layers are REAL landmark-less stargz blobs held by an
+// in-memory registry (an http.RoundTripper with a request log), the labels produced by
+// the writer under test are handed, unchanged, to
+//
+//	fs.NewFilesystem(root, cfg, WithGetSources(<reader of the flavour>)).Mount(ctx, mountpoint, labels)
+//
+// i.e. the daemon's own entry point with a real FUSE mount. Judged on the request log
+// (decided on state: Check() returns only after the target's prefetch completed):
+//
+//	L3a  the target blob was requested, and every request of this mount went to the registry
+//	     host and repository of the pulled reference, for the target digest or the digest of
+//	     a layer that follows the target in the manifest (never any other source);
+//	     the hosts function was asked for exactly the pulled reference
+//	L3b  the prefetch size given to the writer is the one Mount used: on a landmark-less
+//	     layer the bytes [0, min(P, size)) were fetched, and nothing between
+//	     roundup(P, chunk)+3 chunks and the chunk before the TOC was (cfg.PrefetchSize is set to
+//	     a different value D, so a fall-back to the default is visible both ways)
+//
+// Slack: chunk rounding, and layer.prefetch also caches every file that STARTS inside the
+// range, so up to one file (< 1 chunk here) beyond it is fetched legitimately: 3 chunks are tolerated; neighbour
+// pre-resolution is optional ("only affects performance") — it is recorded, not demanded;
+// descriptor URLs are not consumed anywhere in fs/ at the pinned commit, so URL pairing is
+// not observable here (it is judged at the reader boundary by the main stage).
+// Mount errors that are timeouts, and a missing /dev/fuse, are inconclusive.
 
-func l3Stage(r *vf.Run) {}
-func l3Child(r *vf.Run) {}
+import (
+	"archive/tar"
+	"bytes"
+	"context"
+	"fmt"
+	"io"
+	"net/http"
+	"os"
+	"path/filepath"
+	"sort"
+	"strconv"
+	"strings"
+	"sync"
+	"time"
+
+	"github.com/containerd/containerd/v2/core/remotes/docker"
+	"github.com/containerd/containerd/v2/core/snapshots"
+	"github.com/containerd/containerd/v2/pkg/reference"
+	"github.com/containerd/stargz-snapshotter/estargz"
+	stargzfs "github.com/containerd/stargz-snapshotter/fs"
+	"github.com/containerd/stargz-snapshotter/fs/config"
+	"github.com/containerd/stargz-snapshotter/fs/source"
+	digest "github.com/opencontainers/go-digest"
+	ocispec "github.com/opencontainers/image-spec/specs-go/v1"
+
+	"verifharness/internal/gen"
+	"verifharness/internal/prng"
+	"verifharness/internal/vf"
+)
+
+const (
+	l3Chunk          = 50000
+	l3DefaultPrefetch = 500000 // cfg.PrefetchSize: far (>> 3 chunks) from every label value used below
+	l3Files           = 24
+	l3MaxFile         = 45000  // < 1 chunk: prefetch also caches every FILE that starts inside the range, i.e. reads up to one file beyond it
+)
+
+func l3Stage(r *vf.Run) {
+	if f, err := os.OpenFile("/dev/fuse", os.O_RDWR, 0); err != nil {
+		r.Set("l3", "skipped(capability): /dev/fuse unusable: "+err.Error())
+		r.Count("l3_skipped_capability", 1)
+		return
+	} else {
+		f.Close()
+	}
+	ex := r.RunChild(vf.ChildSpec{Stage: "l3", Timeout: 8 * time.Minute})
+	if ex.TimedOut {
+		r.Inconclusive("l3 stage: watchdog")
+	} else if !ex.Partial || ex.ExitCode != 0 {
+		r.Inconclusive(fmt.Sprintf("l3 stage: child ended abnormally (exit %d %s): %s", ex.ExitCode, ex.Signal, trunc(lastLines(ex.Tail, 6), 600)))
+	}
+}
+
+func lastLines(s string, n int) string {
+	ls := strings.Split(strings.TrimSpace(s), "\n")
+	if len(ls) > n {
+		ls = ls[len(ls)-n:]
+	}
+	return strings.Join(ls, " | ")
+}
+
+// ---------------------------------------------------------------------------
+// in-memory registry
+
+type regReq struct {
+	Seq    int
+	Method string
+	Host   string
+	Repo   string
+	Digest string
+	Range  string
+	lo, hi int64 // requested byte range (inclusive), -1 when none
+	Status int
+}
+
+type memReg struct {
+	mu    sync.Mutex
+	blobs map[string][]byte
+	log   []regReq
+}
+
+func (m *memReg) snapshot() []regReq {
+	m.mu.Lock()
+	defer m.mu.Unlock()
+	return append([]regReq(nil), m.log...)
+}
+
+func (m *memReg) RoundTrip(req *http.Request) (*http.Response, error) {
+	rr := regReq{Method: req.Method, Host: req.URL.Host, Range: req.Header.Get("Range"), lo: -1, hi: -1}
+	p := strings.TrimPrefix(req.URL.Path, "/v2/")
+	if i := strings.LastIndex(p, "/blobs/"); i >= 0 && p != req.URL.Path {
+		rr.Repo, rr.Digest = p[:i], p[i+len("/blobs/"):]
+	} else {
+		rr.Repo = req.URL.Path
+	}
+	m.mu.Lock()
+	b, ok := m.blobs[rr.Digest]
+	m.mu.Unlock()
+	resp := &http.Response{Proto: "HTTP/1.1", ProtoMajor: 1, ProtoMinor: 1, Header: http.Header{}, Request: req, Body: http.NoBody}
+	resp.Header.Set("Content-Type", "application/octet-stream")
+	switch {
+	case !ok:
+		resp.StatusCode = http.StatusNotFound
+	case req.Method == http.MethodHead:
+		resp.StatusCode = http.StatusOK
+		resp.Header.Set("Content-Length", strconv.Itoa(len(b)))
+		resp.ContentLength = int64(len(b))
+	case req.Method == http.MethodGet && rr.Range == "":
+		resp.StatusCode = http.StatusOK
+		resp.Header.Set("Content-Length", strconv.Itoa(len(b)))
+		resp.ContentLength = int64(len(b))
+		resp.Body = io.NopCloser(bytes.NewReader(b))
+		rr.lo, rr.hi = 0, int64(len(b))-1
+	case req.Method == http.MethodGet:
+		spec := strings.TrimPrefix(rr.Range, "bytes=")
+		var lo, hi int64
+		if strings.Contains(spec, ",") {
+			resp.StatusCode = http.StatusBadRequest // single-range registry (the fetcher is configured for it)
+			break
+		}
+		if n, err := fmt.Sscanf(spec, "%d-%d", &lo, &hi); n != 2 || err != nil || lo < 0 || lo > hi || lo >= int64(len(b)) {
+			resp.StatusCode = http.StatusRequestedRangeNotSatisfiable
+			break
+		}
+		if hi >= int64(len(b)) {
+			hi = int64(len(b)) - 1
+		}
+		rr.lo, rr.hi = lo, hi
+		resp.StatusCode = http.StatusPartialContent
+		resp.Header.Set("Content-Range", fmt.Sprintf("bytes %d-%d/%d", lo, hi, len(b)))
+		resp.Header.Set("Content-Length", strconv.FormatInt(hi-lo+1, 10))
+		resp.ContentLength = hi - lo + 1
+		resp.Body = io.NopCloser(bytes.NewReader(b[lo : hi+1]))
+	default:
+		resp.StatusCode = http.StatusMethodNotAllowed
+	}
+	resp.Status = fmt.Sprintf("%d %s", resp.StatusCode, http.StatusText(resp.StatusCode))
+	rr.Status = resp.StatusCode
+	m.mu.Lock()
+	rr.Seq = len(m.log)
+	m.log = append(m.log, rr)
+	m.mu.Unlock()
+	return resp, nil
+}
+
+// ---------------------------------------------------------------------------
+
+type l3Blob struct {
+	data   []byte
+	dig    digest.Digest
+	toc    digest.Digest
+	tocOff int64
+}
+
+// buildBlob: a stargz blob WITHOUT prefetch landmarks (estargz.Writer used directly), so
+// that layer.Prefetch uses the size it is given.
+func buildBlob(rng *prng.R, idx int) (l3Blob, error) {
+	var entries []gen.Entry
+	entries = append(entries, gen.Entry{Name: "d/", Type: tar.TypeDir, Mode: 0o755, ModTime: 1700000000})
+	for i := 0; i < l3Files; i++ {
+		entries = append(entries, gen.Entry{Name: fmt.Sprintf("d/f%d-%d", idx, i), Type: tar.TypeReg, Mode: 0o644, ModTime: 1700000000,
+			Size: int64(rng.Range(30000, l3MaxFile)), ContentID: rng.U64()})
+	}
+	var buf bytes.Buffer
+	w := estargz.NewWriterLevel(&buf, 1)
+	w.ChunkSize = 40000
+	if err := w.AppendTar(bytes.NewReader(gen.TarBytes(entries))); err != nil {
+		return l3Blob{}, err
+	}
+	toc, err := w.Close()
+	if err != nil {
+		return l3Blob{}, err
+	}
+	data := buf.Bytes()
+	_, tocOff, _, err := new(estargz.GzipDecompressor).ParseFooter(data[len(data)-estargz.FooterSize:])
+	if err != nil || tocOff <= 0 || tocOff >= int64(len(data)) {
+		return l3Blob{}, fmt.Errorf("cannot locate the TOC of the blob just built: %v", err)
+	}
+	return l3Blob{data: data, dig: digest.FromBytes(data), toc: toc, tocOff: tocOff}, nil
+}
+
+type interval struct{ lo, hi int64 } // [lo, hi)
+
+func union(iv []interval) []interval {
+	sort.Slice(iv, func(i, j int) bool { return iv[i].lo < iv[j].lo })
+	var out []interval
+	for _, x := range iv {
+		if n := len(out); n > 0 && x.lo <= out[n-1].hi {
+			if x.hi > out[n-1].hi {
+				out[n-1].hi = x.hi
+			}
+		} else {
+			out = append(out, x)
+		}
+	}
+	return out
+}
+
+func covers(u []interval, lo, hi int64) bool {
+	if lo >= hi {
+		return true
+	}
+	for _, x := range u {
+		if x.lo <= lo && hi <= x.hi {
+			return true
+		}
+	}
+	return false
+}
+
+func intersects(u []interval, lo, hi int64) bool {
+	if lo >= hi {
+		return false
+	}
+	for _, x := range u {
+		if x.lo < hi && lo < x.hi {
+			return true
+		}
+	}
+	return false
+}
+
+func l3Child(r *vf.Run) {
+	rng := r.RNG(2 << 40)
+	reg := &memReg{blobs: map[string][]byte{}}
+	var blobs []l3Blob
+	tocOffs := map[string]int64{}
+	for i := 0; i < 4; i++ {
+		b, err := buildBlob(rng, i)
+		if err != nil {
+			r.Inconclusive("l3: cannot build a stargz blob: " + err.Error())
+			return
+		}
+		blobs = append(blobs, b)
+		reg.blobs[b.dig.String()] = b.data
+		tocOffs[b.dig.String()] = b.tocOff
+	}
+	prefetches := []int64{175000, 0, 5 << 30, 1, 333333}
+	rounds := r.N(1, 4)
+	mountNo := 0
+	for round := 0; round < rounds; round++ {
+		for pi, P := range prefetches {
+			for _, fl := range flavours {
+				mountNo++
+				// manifest: real blobs in a random order, one repeated, one non-layer child in between
+				perm := rng.Perm(len(blobs))
+				m := &mcase{Name: "l3", Prefetch: P, MT: ocispec.MediaTypeImageManifest,
+					Ref:    fmt.Sprintf("l3-%d.example.com/team%d/app%d:v%d", mountNo, round, pi, mountNo),
+					Config: child{MT: ocispec.MediaTypeImageConfig, Dig: digest.FromString(fmt.Sprint("cfg", mountNo)), Size: 10}}
+				for k, bi := range perm {
+					b := blobs[bi]
+					m.Layers = append(m.Layers, child{MT: ocispec.MediaTypeImageLayerGzip, Dig: b.dig, Size: int64(len(b.data)), Layer: true,
+						URLs: []string{fmt.Sprintf("https://cdn.example.net/%d/%d", mountNo, bi)},
+						Ann:  map[string]string{estargz.TOCJSONDigestAnnotation: b.toc.String()}})
+					if k == 1 {
+						m.Layers = append(m.Layers, child{MT: "application/vnd.in-toto+json", Dig: digest.FromString(fmt.Sprint("att", mountNo)), Size: 5})
+					}
+				}
+				if rng.Bool() {
+					m.Layers = append(m.Layers, m.Layers[0]) // repeated digest
+				}
+				// target: any layer that still has followers, or the last one
+				var layerIdx []int
+				kids := m.children()
+				for i, k := range kids {
+					if k.Layer {
+						layerIdx = append(layerIdx, i)
+					}
+				}
+				ti := layerIdx[rng.Intn(len(layerIdx)-1)]
+				l3Mount(r, reg, tocOffs, fl, m, kids, ti, mountNo)
+			}
+		}
+	}
+	// requests that belong to no mount of this stage at all
+	known := map[string]bool{}
+	for i := 1; i <= mountNo; i++ {
+		known[fmt.Sprintf("l3-%d.example.com", i)] = true
+	}
+	for _, q := range reg.snapshot() {
+		if !known[q.Host] {
+			r.Violate("l3:request-to-unknown-registry-host", "a request went to a host that no pulled reference names: "+q.Host, map[string]any{"request": fmt.Sprintf("%+v", q)})
+		}
+	}
+	r.Count("l3_registry_requests", len(reg.snapshot()))
+}
+
+func l3Mount(r *vf.Run, reg *memReg, tocOffs map[string]int64, fl *flavour, m *mcase, kids []child, ti int, mountNo int) {
+	r.Eval(1)
+	r.Count("l3_mounts_attempted", 1)
+	replay := map[string]any{"stage": "l3", "flavour": fl.name, "manifest": m.describe(), "target_child_index": ti, "prefetch": m.Prefetch}
+	out, base, err, panicked, pv, _ := runWriter(fl, m)
+	if panicked || err != nil || base == nil || len(out) != len(kids) {
+		r.Inconclusive(fmt.Sprintf("l3: writer did not produce labels (%v %v)", err, pv))
+		return
+	}
+	lbls := snapshots.FilterInheritedLabels(out[ti].Annotations)
+	wantRef, _ := reference.Parse(m.Ref)
+	host := wantRef.Hostname()
+	repo := strings.TrimPrefix(wantRef.Locator, host+"/")
+	target := kids[ti]
+	allowed := map[string]bool{target.Dig.String(): true}
+	for j := ti + 1; j < len(kids); j++ {
+		if kids[j].Layer {
+			allowed[kids[j].Dig.String()] = true
+		}
+	}
+
+	var hmu sync.Mutex
+	var asked []reference.Spec
+	hosts := source.RegistryHosts(func(rs reference.Spec) ([]docker.RegistryHost, error) {
+		hmu.Lock()
+		asked = append(asked, rs)
+		hmu.Unlock()
+		return []docker.RegistryHost{{
+			Client: &http.Client{Transport: reg}, Host: rs.Hostname(), Scheme: "https", Path: "/v2",
+			Capabilities: docker.HostCapabilityPull | docker.HostCapabilityResolve,
+		}}, nil
+	})
+	root := filepath.Join(r.Scratch, fmt.Sprintf("fs-%d", mountNo))
+	mp := filepath.Join(r.Scratch, fmt.Sprintf("mnt-%d", mountNo))
+	_ = os.MkdirAll(root, 0o755)
+	_ = os.MkdirAll(mp, 0o755)
+	cfg := config.Config{
+		NoBackgroundFetch: true, NoPrometheus: true, PrefetchSize: l3DefaultPrefetch,
+		BlobConfig: config.BlobConfig{ChunkSize: l3Chunk, ForceSingleRangeMode: true, MaxRetries: 1, MinWaitMSec: 1, MaxWaitMSec: 5},
+	}
+	fsys, err := stargzfs.NewFilesystem(root, cfg, stargzfs.WithGetSources(fl.reader(hosts)))
+	if err != nil {
+		r.Inconclusive("l3: NewFilesystem: " + errClass(err))
+		return
+	}
+	ctx := context.Background()
+	var merr error
+	if !r.Watchdog(2*time.Minute, "l3 Mount", func() { merr = fsys.Mount(ctx, mp, lbls) }) {
+		return
+	}
+	if merr != nil {
+		if strings.Contains(merr.Error(), "timeout") {
+			r.Inconclusive("l3: Mount timed out")
+			return
+		}
+		r.Violate("l3:"+fl.name+":mount-rejects-produced-labels", "fs.Mount fails on the labels the writer produced for a valid stargz layer: "+errClass(merr), replay)
+		return
+	}
+	// Check returns after the target's prefetch completed (state, not time)
+	var cerr error
+	okc := r.Watchdog(2*time.Minute, "l3 Check", func() { cerr = fsys.Check(ctx, mp, lbls) })
+	entries, rerr := os.ReadDir(filepath.Join(mp, "d"))
+	// give the optional neighbour pre-resolution a bounded chance to show up (recorded only)
+	nFollow := len(allowed) - 1
+	seenNeighbours := func() int {
+		seen := map[string]bool{}
+		for _, q := range reg.snapshot() {
+			if q.Host == host && q.Digest != target.Dig.String() && allowed[q.Digest] {
+				seen[q.Digest] = true
+			}
+		}
+		return len(seen)
+	}
+	for i := 0; i < 200 && seenNeighbours() < nFollow; i++ {
+		time.Sleep(10 * time.Millisecond)
+	}
+	time.Sleep(30 * time.Millisecond)
+	if uerr := fsys.Unmount(ctx, mp); uerr != nil {
+		r.Count("l3_unmount_errors", 1)
+	}
+	if !okc {
+		return
+	}
+	if cerr != nil {
+		r.Inconclusive("l3: Check failed: " + errClass(cerr))
+		return
+	}
+	if rerr != nil || len(entries) != l3Files {
+		r.Inconclusive(fmt.Sprintf("l3: mounted layer does not list its files (%v, %d)", rerr, len(entries)))
+		return
+	}
+	r.Count("l3_mounts_judged", 1)
+	r.Count("l3_neighbours_preresolved", seenNeighbours())
+	r.Count("l3_neighbours_possible", nFollow)
+
+	// L3a
+	hmu.Lock()
+	for _, a := range asked {
+		if a != wantRef {
+			r.Violate("l3:"+fl.name+":hosts-asked-for-different-reference", fmt.Sprintf("registry hosts were asked for %q, pulled %q", a.String(), m.Ref), replay)
+		}
+	}
+	nAsked := len(asked)
+	hmu.Unlock()
+	if nAsked == 0 {
+		r.Violate("l3:"+fl.name+":hosts-function-not-used", "Mount never asked the configured registry hosts function", replay)
+	}
+	var mine []regReq
+	targetRequested := false
+	var iv []interval
+	for _, q := range reg.snapshot() {
+		if q.Host != host {
+			continue
+		}
+		mine = append(mine, q)
+		if q.Repo != repo {
+			r.Violate("l3:"+fl.name+":request-to-different-repository", fmt.Sprintf("request for repository %q, pulled reference names %q", q.Repo, repo), replay)
+		}
+		if !allowed[q.Digest] {
+			r.Violate("l3:"+fl.name+":request-for-foreign-digest", "a blob was requested that is neither the target nor a layer following it: "+trunc(q.Digest, 90), replay)
+		}
+		if q.Digest == target.Dig.String() {
+			targetRequested = true
+			if q.Method == http.MethodGet && q.Status/100 == 2 && q.lo >= 0 && !(q.lo == 0 && q.hi == 1) {
+				iv = append(iv, interval{q.lo, q.hi + 1})
+			}
+		}
+	}
+	if !targetRequested {
+		r.Violate("l3:"+fl.name+":target-not-resolved-under-reference", "Mount succeeded but the target blob was never requested under the pulled reference", replay)
+		return
+	}
+	// L3b
+	size := int64(len(reg.blobs[target.Dig.String()]))
+	p := m.Prefetch
+	if p > size {
+		p = size
+	}
+	if p < 0 {
+		p = 0
+	}
+	u := union(iv)
+	winLo := (p+l3Chunk-1)/l3Chunk*l3Chunk + 3*l3Chunk // chunk rounding + the tail of the last file starting inside the range (< 1 chunk, itself chunk-rounded)
+	winHi := tocOffs[target.Dig.String()]/l3Chunk*l3Chunk - l3Chunk // resolving reads footer and TOC (chunk-aligned) at the end of the blob
+	ranges := fmt.Sprint(u)
+	if !covers(u, 0, p) {
+		r.Violate("l3:"+fl.name+":prefetch-size-label-not-honoured:too-little", fmt.Sprintf("label says %d (default %d): bytes [0,%d) of the %d-byte landmark-less layer were not fetched before Check returned", m.Prefetch, l3DefaultPrefetch, p, size), withKV(replay, "fetched", ranges))
+	} else if intersects(u, winLo, winHi) {
+		r.Violate("l3:"+fl.name+":prefetch-size-label-not-honoured:too-much", fmt.Sprintf("label says %d (default %d): bytes inside [%d,%d) were fetched although nothing read them", m.Prefetch, l3DefaultPrefetch, winLo, winHi), withKV(replay, "fetched", ranges))
+	} else {
+		r.Count("l3_prefetch_size_honoured", 1)
+		r.NonTrivial("l3 " + fl.name + " " + m.describe())
+	}
+	r.Distinct("l3_prefetch_values", fmt.Sprint(m.Prefetch))
+	if mountNo <= 2 {
+		var rs []string
+		for _, q := range mine {
+			rs = append(rs, fmt.Sprintf("%s %s/%s %s -> %d", q.Method, q.Repo, shortDig(digest.Digest(q.Digest)), q.Range, q.Status))
+		}
+		r.Sample(map[string]any{"stage": "l3", "flavour": fl.name, "ref": m.Ref, "prefetch": m.Prefetch, "requests": rs})
+	}
+}
